@@ -1382,6 +1382,10 @@ class Wtp:
                     pos = m.end()
                     ch = m.group(0)
                     idx = ord(ch) - MAGIC_FIRST
+                    if idx >= len(self.cookies):
+                        # not found in the cookies
+                        parts.append(ch)
+                        continue
                     kind, args, nowiki = self.cookies[idx]
                     # print(f"{kind=}, {args=}, {argmap=}")
                     assert isinstance(args, tuple)
